@@ -1,6 +1,8 @@
 import EdzedModel.Basic.Val
 import EdzedModel.Counter
 import EdzedModel.Drv.Counter
+import EdzedModel.Drv.Output
 import EdzedModel.Drv.Simulate
 import EdzedModel.Gen.Constants
+import EdzedModel.Output
 import EdzedModel.Simulate
